@@ -27,6 +27,7 @@
      sync_plan c, strategy, plan <<<<client, p>>..>>, parts <<p..>>, members <<client..>>, unknown, nosub, foreign
                                the assignments of the leader's SyncGroup request (clause sync_plan_complete, property C08)
      coord_down                the coordinator (and seed broker) became unreachable: premise of final_commit_after_cleanup gone
+     cleanup_wait c, hbs, expired   end of a long Cleanup that waited for heartbeats (clause heartbeats_until_final_commit)
      setup_fail c              the handler's Setup returns an error: the session ends in set-up (no claim starts; the code runs
                                Cleanup and Consume returns the error). ofetch_fail c, kind (the session's initial OffsetFetch is
                                refused: no Setup at all, Consume returns the error) needs no clause of its own
@@ -76,6 +77,7 @@ ObsInit ==
    fenced |-> [c \in OC |-> FALSE],          \* last join/sync answer was UNKNOWN_MEMBER_ID
    idfree |-> [c \in OC |-> FALSE],          \* an UNKNOWN_MEMBER_ID / ILLEGAL_GENERATION answer reached the client since its last
                                              \* successful join (the code may drop the member id), or it left the group
+   hbstop |-> [c \in OC |-> FALSE],          \* a heartbeat of this call got an answer other than OK (the loop may have ended by it)
    connlost |-> [c \in OC |-> FALSE],        \* the coordinator dropped a connection of the client since its last successful join
                                              \* (its next request may die on the dead connection before it is seen)
    left |-> [c \in OC |-> FALSE],            \* a LeaveGroup request was seen since the last successful join
@@ -108,7 +110,7 @@ OReset(o, e) ==
 OConsumeCall(o, e) ==
   LET c == e.c IN
   [o EXCEPT !.ph[c] = "called", !.claims[c] = {}, !.started[c] = {}, !.returned[c] = {},
-            !.sessEnd[c] = FALSE, !.hbconn[c] = 0, !.nfin[c] = 0, !.nconn[c] = 0, !.nstale[c] = 0,
+            !.sessEnd[c] = FALSE, !.hbconn[c] = 0, !.nfin[c] = 0, !.nconn[c] = 0, !.nstale[c] = 0, !.hbstop[c] = FALSE,
             !.nextoff[c] = [p \in OP |-> -1], !.first[c] = [p \in OP |-> FALSE],
             !.marks[c] = [p \in OP |-> {}], !.sent[c] = [p \in OP |-> {}], !.acc[c] = [p \in OP |-> {}],
             !.bad = {}]
@@ -207,7 +209,7 @@ OHb(o, e) ==
   LET c == e.c
       lost == IF e.err = "conn" THEN o.hbconn[c] + 1 ELSE 0 IN
   [o EXCEPT !.hbconn[c] = lost, !.nconn[c] = IF e.err = "conn" THEN @ + 1 ELSE @,
-            !.idfree[c] = @ \/ e.err \in {"unknown", "illegal"},
+            !.idfree[c] = @ \/ e.err \in {"unknown", "illegal"}, !.hbstop[c] = @ \/ e.err # "ok",
             !.sessEnd[c] = @ \/ (e.err \notin {"ok", "conn"}) \/ lost > o.hbretry,
             !.bad = W(<<e.mid, e.gen>> # o.cur[c], "requests_carry_issued_identity")
                     \cup W(o.ph[c] = "out", "consume_returns_last")]
@@ -279,6 +281,11 @@ ObsStep(o, e) ==
     [] e.ev = "hang" -> [o EXCEPT !.hung = TRUE, !.bad = {HangClause(o, e)}]
     [] e.ev = "sync_plan" -> [o EXCEPT !.bad = W(~SyncPlanOk(e), "sync_plan_complete")]
     [] e.ev = "coord_down" -> [o EXCEPT !.cdown = TRUE, !.bad = {}]
+    \* release stops the heartbeats only after Cleanup and the final commit: a long Cleanup (measured in heartbeats: it waits for
+    \* three of them, its load-aware bound of 3x the session timeout expired) saw none although no answer had ended the loop
+    [] e.ev = "cleanup_wait" ->
+         [o EXCEPT !.bad = W(e.expired /\ e.hbs = 0 /\ o.ph[e.c] = "cleanup" /\ ~o.hbstop[e.c] /\ ~o.cdown,
+                             "heartbeats_until_final_commit")]
     [] e.ev = "setup_fail" -> [o EXCEPT !.sessEnd[e.c] = TRUE, !.bad = HandlerWhileOut(o, e.c)]
     [] e.ev = "claim_fail" -> [o EXCEPT !.sessEnd[e.c] = TRUE, !.bad = {}]
     [] e.ev = "panic" -> [o EXCEPT !.bad = {"consume_panic"}]
